@@ -376,7 +376,7 @@ def gen_games(rng, thorough):
     rngv = range(-3, 4) if thorough else range(-1, 2)
     for t in itertools.product(rngv, repeat=4):
         games.append(([[F(t[0]), F(t[1])], [F(t[2]), F(t[3])]], "int-exhaustive-2x2"))
-    for _ in range(1500 if thorough else 260):
+    for _ in range(1200 if thorough else 260):
         m, n = rng.randrange(1, 5), rng.randrange(1, 5)
         A = [[rint(rng) for _ in range(n)] for _ in range(m)]
         mode = rng.randrange(6)
@@ -718,7 +718,7 @@ def run(ctx):
     thorough = ctx.tier == "thorough"
     warmup()
     ctx.proofs(["C04/Props.v", "C04/PropsConsts.v", "C04/PropsTie.v"])
-    lps = fixed_lps() + [gen_lp(ctx.rng) for _ in range(2400 if thorough else 440)]
+    lps = fixed_lps() + [gen_lp(ctx.rng) for _ in range(2000 if thorough else 440)]
     lps += gen_buffer_sequences(ctx.rng, 160 if thorough else 32)
     cases, fcases, outs = [], [], []
     bufstore = {}
